@@ -19,8 +19,8 @@ TIERS = {
 }
 RULE = ("one run = one seeded election with CVRs (lost cards -> phantoms, pooled batches), style on or off, and a manual "
         "record (possibly faulty, possibly unfindable) for every card; the identity is evaluated for every assertion "
-        "over the whole population; non-trivial = some manual record differs from its CVR or a phantom / pooled CVR "
-        "is in the population; distinct = distinct event-log digest")
+        "over the whole population; non-trivial = some manual record differs from its CVR (marks, encoding, contests, "
+        "or unfindable) or a phantom / pooled CVR is in the population; distinct = distinct event-log digest")
 ASSUMPTIONS = [
     "equality of the two sides is compared to 1e-9 relative (they are computed along different arithmetic paths)",
     "A is the library's own assorter applied to the manual record, 0 for an unfindable card and, under style, for a record lacking the contest (as the statement defines it)",
@@ -41,6 +41,8 @@ def generate(rng, tier):
     case = G.gen_case(rng, max_cards=cfg["max_cards"], max_rounds=1, audit_types=[(W.COMPARISON, 1), (W.ONEAUDIT, 1)],
                       homogeneous_when_style_off=False, p_shortfall=0.3)
     case["rounds"] = []
+    tally_ok = all(c["choice_function"] in (W.PLURALITY, W.APPROVAL) for c in case["world"]["contests"].values())
+    case["margins_via_tally"] = bool(tally_ok and rng.chance(0.35))
     return case
 
 
@@ -49,7 +51,8 @@ class Obs:
         self.out = out
 
     def on_exception(self, run, step, e):
-        if step in ("set_all_margins_from_cvrs", "set_tally_pool_means") and isinstance(e, (KeyError, TypeError, AttributeError)):
+        if step in ("set_all_margins_from_cvrs", "set_tally_pool_means", "find_margins_from_tally", "Contest.tally") \
+                and isinstance(e, (KeyError, TypeError, AttributeError)):
             self.out.violate("C03.x", f"{step}/style={run.use_style}/{type(e).__name__}",
                              f"{step} raised {e!r}: the margin / batch means of the population do not exist "
                              f"(style={run.use_style})")
